@@ -31,26 +31,40 @@ def keys_of(hdr, rows, key):
     return [ref.keyof(r, idx) for r in rows]
 
 
+def has_long_rows(hdr, rows):
+    return any(len(r) > len(hdr) for r in rows)
+
+
+def _lexkey_with_surplus(hdr, row):
+    """Lexical key under the second reading: the header's fields (missing cells read as None) followed by
+    the surplus cells of a long row."""
+    n = len(hdr)
+    return tuple(ref.cell(row, i) for i in range(n)) + tuple(row[n:])
+
+
 def sort_expected(hdr, rows, key, reverse):
-    """Acceptable output row sequences of sort(table, key, reverse) — a list with one element, or two
-    for a lexical sort (key=None) of a ragged table, where the documentation does not say whether
-    'lexical' ranges over the header's fields (missing cells reading as None, surplus cells ignored)
-    or over the cells physically present in each row."""
+    """Acceptable output row sequences of sort(table, key, reverse).
+
+    A missing cell reads as None (the statement's "None and missing key cells"), also in a lexical sort
+    (key=None): the key of a SHORT row is the header-length tuple padded with None, so a short row and a row
+    holding an explicit None there have equal keys and must keep input order.  One element — except for a
+    lexical sort of a table with LONG rows: whether surplus cells take part in the lexical key is not
+    documented, so the sequence with the surplus cells appended to the key is accepted as well."""
     rows = [tuple(r) for r in rows]
     first = ref.stable_sort(rows, key_indices(hdr, key), reverse)
     out = [first]
-    if key is None and not rectangular(hdr, rows):
-        alt = ref.stable_sort(rows, None, reverse)
+    if key is None and has_long_rows(hdr, rows):
+        alt = sorted(rows, key=lambda r: ref.sortkey(_lexkey_with_surplus(hdr, r)), reverse=reverse)
         if tfs(alt) != tfs(first):
             out.append(alt)
     return out
 
 
 def is_sorted_expected(hdr, rows, key, reverse, strict):
-    """Acceptable answers of issorted (a set of booleans; two readings for ragged lexical, as above)."""
+    """Acceptable answers of issorted (a set of booleans; two readings only for lexical + long rows)."""
     ans = {ref.is_sorted(keys_of(hdr, rows, key), reverse, strict)}
-    if key is None and not rectangular(hdr, rows):
-        ans.add(ref.is_sorted([tuple(r) for r in rows], reverse, strict))
+    if key is None and has_long_rows(hdr, rows):
+        ans.add(ref.is_sorted([_lexkey_with_surplus(hdr, r) for r in rows], reverse, strict))
     return ans
 
 
